@@ -24,8 +24,12 @@ T(s) == <<>> \o s                                         \* as a tuple
 (* field domains                                                                                      *)
 (* ------------------------------------------------------------------------------------------------ *)
 \* (big = TRUE adds the 16383/16384/32767-byte strings and the 5120/16384-byte arrays)
-StrValsL(big)  == {StringTable[k] : k \in DOMAIN StringTable}
-                  \cup (IF big THEN {T(Rep(97, 16383)), T(Rep(97, 16384)), T(Rep(122, 32767)), T(Rep(98, 2097))} ELSE {})
+\* 16400 two-byte characters: 32800 BYTES but only 16400 UTF-16 units -- within every 32767 limit, which counts units, not bytes
+BigTwo   == T([i \in 1..32800 |-> IF i % 2 = 1 THEN 195 ELSE 169])
+\* the longest string there is: 32767 three-byte characters, 98301 bytes
+MaxThree == T([i \in 1..98301 |-> <<226, 130, 172>>[((i - 1) % 3) + 1]])
+StrValsL(big)  == {StringTable[k] : k \in DOMAIN StringTable} \cup {BigTwo}
+                  \cup (IF big THEN {T(Rep(97, 16383)), T(Rep(97, 16384)), T(Rep(122, 32767)), T(Rep(98, 2097)), MaxThree} ELSE {})
 IdentVals == {IdentTable[k] : k \in DOMAIN IdentTable}
 ByteValsL(big) == {<<>>, <<0>>, <<255>>, <<128, 0, 127, 255>>, T([i \in 1..127 |-> i]), T([i \in 1..128 |-> 256 - i]), T([i \in 1..256 |-> i - 1])}
                   \cup (IF big THEN {T(Rep(165, 5120)), T(Rep(1, 16384))} ELSE {})
